@@ -13,6 +13,7 @@ import time
 import traceback
 
 ROOT = os.path.dirname(os.path.dirname(os.path.abspath(__file__)))
+OUT = os.environ.get("VERIF_OUT_DIR") or ROOT   # developer override (seed sweeps): where evidence / replays are written
 sys.path.insert(0, ROOT)
 
 CONTRACT_MODULES = [
@@ -60,7 +61,7 @@ def sha256_of_lines(path, lo, hi):
 def run_property(pid, tier="quick", seed=0, jobs=None, only=None):
     t0 = time.time()
     import shutil
-    shutil.rmtree(os.path.join(ROOT, "replays", pid), ignore_errors=True)
+    shutil.rmtree(os.path.join(OUT, "replays", pid), ignore_errors=True)
     reg = load_contracts()
     timeout_ms = 20000 if tier == "quick" else 120000
     tasks = []
@@ -221,8 +222,8 @@ def finish(pid, tier, seed, reg, results, wall):
         wall_s=round(wall, 2),
         violations=len(violations),
     )
-    os.makedirs(os.path.join(ROOT, "evidence"), exist_ok=True)
-    with open(os.path.join(ROOT, "evidence", "%s.json" % pid), "w") as f:
+    os.makedirs(os.path.join(OUT, "evidence"), exist_ok=True)
+    with open(os.path.join(OUT, "evidence", "%s.json" % pid), "w") as f:
         json.dump(ev, f, indent=1, default=str)
     # ---- report
     print("property %s tier=%s: %d obligations (%d path VCs), %d discharged, %d functions x variants, %.1fs" % (
